@@ -305,6 +305,12 @@ Case gen_case(const std::string &prop, const std::string &tier, uint64_t verif_s
     bool thorough = tier == "thorough";
     Rng r(c.run_seed);
     std::string gp = prop; // generator family
+    if (prop == "C19") {
+        static const char *fam19[] = {"C01", "C03", "C04", "C01", "C14"};
+        gp = fam19[index % 5];
+        c.oracles = 0; // only the traces matter: they are compared across builds
+        c.config = std::string("generator=") + gp;
+    }
     if (prop == "C13") {
         static const char *fam[] = {"C01", "C05", "C07", "C10", "C04", "C09", "C08", "C14", "C15", "C03", "C06", "C17"};
         gp = fam[index % 12];
@@ -314,6 +320,7 @@ Case gen_case(const std::string &prop, const std::string &tier, uint64_t verif_s
     Plan plan;
     plan.prop = prop; plan.run_seed = c.run_seed; plan.fill_seed = mix(c.run_seed, 77) | 1;
     Profile pf = profile_for(gp, r, index);
+    if (prop == "C19") { pf.benign_pct = 0; pf.pct_print = 30; pf.pct_big = 0; } // six builds incl. -O0: keep every case small
     if (gp == "C04") {
         unsigned k = static_cast<unsigned>(r.below(100));
         if (k < 30) { // lineage that starts from an API-built object
@@ -321,8 +328,8 @@ Case gen_case(const std::string &prop, const std::string &tier, uint64_t verif_s
             gen_history(r, pf, plan);
             c.config = "source=api";
         } else {
-            std::string src = pickSource(r, thorough || r.chance(1, 8));
-            plan.steps.push_back(loadStep(src, benign_faults(r, (index % 2) ? 30 : 0)));
+            std::string src = pickSource(r, prop != "C19" && (thorough || r.chance(1, 8)));
+            plan.steps.push_back(loadStep(src, benign_faults(r, (prop != "C19" && (index % 2)) ? 30 : 0)));
             c.config = "source=" + src;
         }
         unsigned gens = 2 + static_cast<unsigned>(r.below(3));
@@ -359,7 +366,7 @@ Case gen_case(const std::string &prop, const std::string &tier, uint64_t verif_s
         if ((index / 48) % 2 == 1 && which != 8 && which != 10 && which != 11) { // pairs
             int w2 = static_cast<int>(r.below(10));
             if (w2 == 8 || (w2 >= 6 && which >= 6)) w2 = 0;
-            if (w2 != which) { LimitItem b = add_limit(r, plan, w2, static_cast<int>(r.below(4)), quick); plan.tag += "+" + b.tag; beyond = beyond || b.beyond; }
+            if (w2 != which) { LimitItem b = add_limit(r, plan, w2, static_cast<int>(r.below(4)), quick); plan.tag += "&" + b.tag; beyond = beyond || b.beyond; }
         }
         if (beyond) plan.flags |= 1;
         // some ordinary content around it
@@ -446,7 +453,15 @@ Case gen_case(const std::string &prop, const std::string &tier, uint64_t verif_s
         measure(c.plans[0], img, tr);
         gen_c16_alts(r, c, img, tr, thorough);
     }
-    if (gp == "C14") c.epochs = 3;
+    if (gp == "C14" && prop != "C19") c.epochs = 3;
+    if (prop == "C19" && !c.plans.empty() && r.chance(1, 4)) {
+        // rates at the edges of the float -> int conversions the header updater performs
+        // (point rate only, large side only: a tiny or non-finite point rate asks for millions of sub-frames per frame)
+        static const uint32_t XR[] = {0x48435000u /*200000.25*/, 0x4e6e6b28u /*1e9*/, 0x4f000000u /*2^31*/, 0x4f32d05eu /*3e9*/, 0x47d1b7c0u /*107375.5*/, 0x48d1b717u /*429496.7*/};
+        Step s3; s3.op = OP_SET_RATE; s3.i = {0, static_cast<int64_t>(XR[r.below(6)])};
+        std::vector<Step> &st = c.plans[0].steps;
+        st.insert(st.begin() + static_cast<long>(r.below(st.size() + 1)), s3);
+    }
     return c;
 }
 
@@ -558,9 +573,12 @@ CaseResult run_case(const Case &c, volatile uint64_t *progress) {
             if (bs.tripped) {
                 Violation v; v.prop = "C16"; v.key = std::string("C16/budget/") + bs.kind + "/" + bs.site; v.step = static_cast<int>(a);
                 v.detail = std::string("load of a damaged ") + tos(img.size()) + "-byte file exceeded its " + bs.kind + " budget in " + bs.site;
-                res.viol.push_back(v); res.failing_alt = static_cast<int>(a);
+                bool seen = false;
+                for (auto &o : res.viol) if (o.key == v.key) seen = true;
+                if (!seen) { res.viol.push_back(v); if (res.failing_alt < 0) res.failing_alt = static_cast<int>(a); }
                 bs.tripped = false;
-                break;
+                disk_clear_prefix(disk_root() + "/dmg/");
+                continue; // the other alternatives are still worth loading (a known budget finding must not hide a crash)
             }
             if (rec.threw && (rec.exc == "non_std" || rec.exc == "budget_read" || rec.exc == "budget_heap")) {
                 Violation v; v.prop = "C16"; v.key = "C16/exception/" + rec.exc; v.step = static_cast<int>(a);
@@ -599,6 +617,7 @@ CaseResult run_case(const Case &c, volatile uint64_t *progress) {
     RunResult rr = run_plan(plan, cfg);
     res.viol = rr.viol;
     res.notes = rr.notes;
+    for (auto &rec : rr.recs) res.step_hashes.push_back(mix(mix(rec.snap_hash, rec.image_hash), mix(hash_str(rec.exc), rec.aux + (rec.threw ? 1 : 0))));
     res.trace_hash = rr.trace_hash;
     merge_stats(res.st, rr.st);
     uint64_t ih = 0;
@@ -619,7 +638,23 @@ CaseResult run_case(const Case &c, volatile uint64_t *progress) {
             }
         if (beyond) for (auto &rec : rr.recs) if (rec.op == OP_SAVE && rec.threw) res.extra["beyond.refused"]++;
     }
-    if (prop == "C17") for (auto &v : res.viol) if (v.prop == "C17" && !plan.tag.empty()) v.key += "/" + plan.tag.substr(0, plan.tag.find('.') == std::string::npos ? plan.tag.size() : plan.tag.rfind('.'));
+    if (prop == "C17" && !plan.tag.empty()) {
+        // key context: the limits that are exceeded (L+1 / far), or, when none is, every limit item with its level
+        std::vector<std::string> items, beyondItems;
+        std::string cur;
+        for (char ch : plan.tag + "&") { if (ch == '&') { if (!cur.empty()) items.push_back(cur); cur.clear(); } else cur += ch; }
+        for (auto &it : items) {
+            size_t d = it.rfind('.');
+            std::string lv = d == std::string::npos ? "" : it.substr(d + 1), name = d == std::string::npos ? it : it.substr(0, d);
+            if (lv == "L+1" || lv == "far") beyondItems.push_back(name);
+        }
+        std::sort(beyondItems.begin(), beyondItems.end());
+        beyondItems.erase(std::unique(beyondItems.begin(), beyondItems.end()), beyondItems.end());
+        std::string ctx;
+        if (!beyondItems.empty()) { ctx = "beyond:"; for (size_t k = 0; k < beyondItems.size(); ++k) ctx += (k ? "+" : "") + beyondItems[k]; }
+        else { ctx = "within:"; for (size_t k = 0; k < items.size(); ++k) ctx += (k ? "+" : "") + items[k]; }
+        for (auto &v : res.viol) if (v.prop == "C17") v.key += "/" + ctx;
+    }
     if (c.epochs > 1 && res.viol.empty()) {
         // C14 (c): the same construction in other allocator epochs ("other processes") must write the same bytes
         for (int e = 1; e < c.epochs; ++e) {
